@@ -12,6 +12,8 @@
 //                         a = "mod" | "add" | "del"
 //   mode "random"         instead: n collections with ranks 1..tmax, nenv changes drawn on line
 //   cap                   the fake server's maximum page size (default: unlimited)
+//   failreq, fvar         list request number failreq (initial count, a page or the final count) is
+//                         answered with HTTP 500 / a transport error / a body cut short
 //
 // Concretisation (seeded): uuid rank u -> "zzzzz-4zz18-%015d"; time rank t -> base + t*unit with unit
 // in {1ns, 1us, 1s, 1h}; each collection is ordinary, trashed or a past version (the latter two are
@@ -24,6 +26,7 @@ import (
 	"bytes"
 	"context"
 	"encoding/json"
+	"errors"
 	"fmt"
 	"io"
 	"math/rand"
@@ -59,6 +62,9 @@ type vScanScn struct {
 	TMax  int        `json:"tmax"`
 	NEnv  int        `json:"nenv"`
 	Cap   int        `json:"cap"`
+	// FailReq: number of the list request (0 = the first count) that is made to fail; absent or < 0: none.
+	FailReq *int   `json:"failreq"`
+	FVar    string `json:"fvar"` // "s500" | "conn" | "trunc"
 }
 
 type vColl struct {
@@ -451,7 +457,11 @@ func vHTTPResp(req *http.Request, status int, body []byte) *http.Response {
 	}
 }
 
-type vScanTransport struct{ f *vCollFake }
+type vScanTransport struct {
+	f       *vCollFake
+	failreq int // -1: none
+	fvar    string
+}
 
 func (tr vScanTransport) RoundTrip(req *http.Request) (*http.Response, error) {
 	form := vParams(req)
@@ -459,7 +469,23 @@ func (tr vScanTransport) RoundTrip(req *http.Request) (*http.Response, error) {
 		!(req.Method == "GET" || (req.Method == "POST" && req.Header.Get("X-Http-Method-Override") == "GET")) {
 		return vHTTPResp(req, 404, vErrBody("not found")), nil
 	}
+	tr.f.mu.Lock()
+	idx := tr.f.nreq
+	tr.f.mu.Unlock()
 	st, body := tr.f.serveList(form)
+	if idx == tr.failreq && st == 200 {
+		tr.f.mu.Lock()
+		tr.f.log(map[string]interface{}{"ev": "reqfail", "nreq": idx, "fvar": tr.fvar})
+		tr.f.mu.Unlock()
+		switch tr.fvar {
+		case "conn":
+			return nil, errors.New("verif: connection reset by peer")
+		case "trunc":
+			return vHTTPResp(req, 200, body[:len(body)/2]), nil
+		default:
+			return vHTTPResp(req, 500, vErrBody("verif: injected failure")), nil
+		}
+	}
 	return vHTTPResp(req, st, body), nil
 }
 
@@ -544,7 +570,11 @@ func vRunScanScenario(scn vScanScn, seed int64) []map[string]interface{} {
 	}
 	// a complete scan needs at most ~3 requests per collection version (page size 1, mode changes)
 	f.budget = 40 + 4*(len(f.tbl)+scn.NEnv+len(scn.Env))
-	reset := map[string]interface{}{"ev": "reset", "scn": scn.ID, "part": "scan", "now": f.now, "lim": scn.Lim,
+	failreq := -1
+	if scn.FailReq != nil {
+		failreq = *scn.FailReq
+	}
+	reset := map[string]interface{}{"ev": "reset", "scn": scn.ID, "part": "scan", "failreq": failreq, "now": f.now, "lim": scn.Lim,
 		"unit": f.unit.String()}
 	tbl := [][]int{}
 	trashed, oldver := []int{}, []int{}
@@ -566,7 +596,7 @@ func vRunScanScenario(scn vScanScn, seed int64) []map[string]interface{} {
 	f.log(reset)
 
 	client := &arvados.Client{Scheme: "http", APIHost: "verif.invalid", AuthToken: "xyzzy",
-		Client: &http.Client{Transport: vScanTransport{f}}}
+		Client: &http.Client{Transport: vScanTransport{f: f, failreq: failreq, fvar: scn.FVar}}}
 	err := EachCollection(context.Background(), client, scn.Lim, func(c arvados.Collection) error {
 		f.mu.Lock()
 		f.log(map[string]interface{}{"ev": "deliver", "u": vUUIDRank(c.UUID)})
